@@ -20,6 +20,7 @@ type Backend struct {
 	Kind   int    // 0 = sqlite, 1 = cosmosdb (k_backend of the Coq case)
 	Vault  storage.Vault
 	Cosmos *cosmosdb.FakeCtl // cosmos only
+	PageSize int             // cosmos only: page size of query results (0 = one page)
 	Dir    string            // sqlite-file only
 	sql    *sqlite.Conn      // sqlite-file only: the harness's own connection
 }
@@ -43,9 +44,12 @@ func Open(ctx context.Context, name string, set *Set) (*Backend, error) {
 		}
 		os.RemoveAll(dir)
 		return OpenFile(ctx, dir, set)
-	case "cosmos-fake":
-		v, ctl := cosmosdb.NewFakeVault(set.Reg)
-		return &Backend{Name: name, Kind: 1, Vault: v, Cosmos: ctl}, nil
+	case "cosmos-fake", "cosmos-page1", "cosmos-page2", "cosmos-page3":
+		// NewFakeVaultOpts: query results in pages of at most pageSize items (0 = one page), and batches
+		// that contain the item set with FakeCtl.SetPoisonItem are refused atomically
+		pageSize := map[string]int{"cosmos-fake": 0, "cosmos-page1": 1, "cosmos-page2": 2, "cosmos-page3": 3}[name]
+		v, ctl := cosmosdb.NewFakeVaultOpts(set.Reg, "swarm", pageSize)
+		return &Backend{Name: name, Kind: 1, Vault: v, Cosmos: ctl, PageSize: pageSize}, nil
 	}
 	return nil, fmt.Errorf("unknown backend %q", name)
 }
